@@ -33,11 +33,12 @@ ASSUME = ["partial_reordering, naming conventions, Boolean/Enum type-bound const
           "(requires_recreate / CommandError for insert_before/after / the ALTER path direct_ops) and compared, but outside the refinement theorems",
           "existing rows satisfy the constraints the batch adds (violations are C11's subject)"]
 RULE = ("table t = id INTEGER + 2-5 columns over {INTEGER,BIGINT,TEXT,VARCHAR(20),NUMERIC(10,2)} with nullability/defaults, "
-        "primary key (id) or an unnamed COMPOSITE primary key over two columns mostly declared against the column order, "
+        "primary key (id) or a COMPOSITE primary key over two columns mostly declared against the column order, unnamed or NAMED (30%), "
         "optional named UNIQUE / CHECK / FK to p / self-referential FK, 0-2 indexes; 0-4 rows (NULLs, quotes, unicode, 2^40, numeric-looking text); "
         "1-5 batch operations drawn from add_column (plain, insert_before/insert_after, rarely an existing name), drop_column (also columns under "
         "constraints / indexes / the PK), alter_column (rename, type, nullable, default - singly and several attributes in one call), create unique/check/foreign key (also by a column's NEW name "
-        "after a rename), drop_constraint, create_index, drop_index (also of a missing / just created one); hand-written sequences first; "
+        "after a rename), drop_constraint (incl. the named primary key, with type_='primary' and without type_), create_index, drop_index (also of a missing / just created one); 20% of the sequences start with a drop_column followed by an add_column "
+        "inserted next to the gap it leaves; hand-written sequences first; "
         "30% of the random scenarios use recreate='auto' (60% of those restricted to add_column/create_index/drop_index so that the ALTER path is taken), "
         "25% pass copy_from. "
         "non-trivial = accepted by Alembic (no exception) with at least one row; distinct by encoded input")
@@ -59,6 +60,7 @@ TMPP = "_alembic_tmp_"
 FINDINGS = {
     "byname": "C10-constraint-on-unknown-or-renamed-column-silently-dropped",
     "readd": "C10-add-existing-last-column-loses-its-data",
+    "nbrdrop": "C10-added-column-misplaced-when-neighbour-dropped-later",
 }
 
 
@@ -117,6 +119,20 @@ def fixed():
     yield s([["alter", "a", {"nullable": True, "default": None}]], cols=[["a", 0, False, "7"], ["b", 2, True, None], ["c", 0, True, None]], rows=[[1, 1, "x", 1]])
     yield s([["alter", "a", {"type": 2, "nullable": True, "default": "q"}]])
     yield s([["alter", "a", {"name": "a9", "default": "4", "nullable": True}]])
+    npk = dict(cols=[["a", 0, False, None], ["b", 2, True, None], ["c", 0, True, "0"]], pk=["a", "id"], pkname="pk_t", rows=[[1, 10, "x", 5], [2, 20, None, 6]])
+    yield s([["drop_con", "pk_t", "primary"]], **npk)                                  # named composite PK dropped by name: no PK afterwards
+    yield s([["drop_con", "pk_t", None]], **npk)
+    yield s([["drop_con", "pk_t", "primary"]], mode="auto", **npk)
+    yield s([["drop_con", "pk_t", "primary"]], copy_from=True, **npk)
+    yield s([["drop_con", "pk_t", "primary"], ["add_unique", "uq_a", ["a"]]], **npk)
+    yield s([["add_check", "ck_x", "1 = 1"]], **npk)                                    # named PK untouched
+    yield s([["drop", "a"]], **npk)                                                     # PK shrinks to (id)
+    yield s([["alter", "a", {"name": "a2"}], ["drop", "id"]], **npk)
+    yield s([["drop_con", "pk_t", "primary"]], pkname="pk_t")
+    yield s([["drop", "b"], ["add", "z", 0, True, None, None, "a"]], indexes=[])        # insert_after a, neighbour b already dropped
+    yield s([["drop", "a"], ["add", "z", 0, True, None, "b", None]])                    # insert_before b, neighbour a already dropped
+    yield s([["drop_con", "uq_c", "unique"], ["drop", "c"], ["add", "z", 0, True, None, None, "b"]])
+    yield s([["add", "z", 0, True, None, None, "a"], ["drop", "b"]], indexes=[])        # the implicit neighbour is dropped later
     yield s([["add", "z", 0, True, "7", None, None], ["create_index", "ix_z", ["z", "a"], False], ["drop_index", "ix_b"]], mode="auto")
     yield s([["add", "z", 0, True, None, "a", None]], mode="auto")                     # CommandError
     yield s([["drop", "a"], ["add", "z", 0, True, None, "b", None]], mode="auto")       # recreate already needed: accepted
@@ -168,6 +184,7 @@ def rand_scenario(rnd):
     for k in range(rnd.randint(0, 2)):
         indexes.append(["ix%d" % k, rnd.sample(names, rnd.randint(1, min(2, len(names)))), rnd.random() < 0.2])
     scn = dict(cols=cols, uniques=uniques, checks=checks, fks=fks, indexes=indexes, rows=rows, ops=[], pk=pk,
+               pkname=("pk_t" if rnd.random() < 0.3 else None),
                mode=("auto" if rnd.random() < 0.3 else "always"), copy_from=rnd.random() < 0.25)
     gen_ops(rnd, scn, light=(scn["mode"] == "auto" and rnd.random() < 0.6))
     return scn
@@ -186,12 +203,32 @@ def gen_ops(rnd, scn, light=False):
     con_kind = {u[0]: "unique" for u in scn["uniques"]}
     con_kind.update({c[0]: "check" for c in scn["checks"]})
     con_kind.update({f[0]: "foreignkey" for f in scn["fks"]})
+    if scn.get("pkname"):
+        con_names.append(scn["pkname"]); con_kind[scn["pkname"]] = "primary"
+        if rnd.random() < 0.4:
+            con_names.append(scn["pkname"])          # make dropping the primary key likelier
     idx_names = [i[0] for i in scn["indexes"]]
     nullfree = lambda k: k == "id" or all(r[1 + [c[0] for c in scn["cols"]].index(k)] is not None for r in scn["rows"]) if k in [c[0] for c in scn["cols"]] or k == "id" else False
     typed, added = set(), []
     fk_cols = {x for f in scn["fks"] for x in f[1]}
     uniq_sets = {u[1][0] for u in scn["uniques"] if len(u[1]) == 1}
+    gap_nbrs = []
     ops = []
+    if rnd.random() < 0.2 and not light:
+        # drop a column, then insert a new one next to the gap it leaves
+        cand = [k for k in keys if k not in check_cols and k not in idx_cols and k not in pkcols]
+        if cand and len(keys) > 2:
+            k = rnd.choice(cand); i = keys.index(k)
+            ops.append(["drop", k])
+            if i > 0:
+                gap_nbrs.append(("after", keys[i - 1]))
+            if i + 1 < len(keys):
+                gap_nbrs.append(("before", keys[i + 1]))
+            keys.remove(k)
+            side, nb = rnd.choice(gap_nbrs)
+            ops.append(["add", "z%d" % len(ops), rnd.randrange(5), True, rnd.choice([None, "7"]),
+                        nb if side == "before" else None, nb if side == "after" else None])
+            keys.append(ops[-1][1]); added.append(ops[-1][1]); curname[ops[-1][1]] = ops[-1][1]
     for _ in range(rnd.randint(1, 5)):
         kind = rnd.choice(["add", "add", "drop", "drop", "rename", "rename", "type", "nullable", "default", "multi", "multi", "multi", "add_unique", "add_unique",
                            "add_check", "add_fk", "drop_con", "create_index", "create_index", "drop_index", "weird"])
@@ -202,7 +239,16 @@ def gen_ops(rnd, scn, light=False):
             nm = "z%d" % len(ops)
             r = rnd.random()
             before = after = None
-            if r < 0.2 and live:
+            if gap_nbrs and rnd.random() < 0.6:
+                # next to where a column was dropped earlier in this batch (its implicit other neighbour is then the
+                # column beyond the dropped one)
+                side, nb = rnd.choice(gap_nbrs)
+                if nb in keys:
+                    if side == "after":
+                        after = nb
+                    else:
+                        before = nb
+            elif r < 0.2 and live:
                 before = rnd.choice(live)
             elif r < 0.4 and keys:
                 after = rnd.choice(keys)
@@ -216,7 +262,15 @@ def gen_ops(rnd, scn, light=False):
             if rnd.random() < 0.7:
                 cand = [k for k in cand if k not in pkcols]
             if cand and len(keys) > 1:
-                k = rnd.choice(cand); ops.append(["drop", k]); keys.remove(k)
+                k = rnd.choice(cand); ops.append(["drop", k])
+                lv = [x for x in keys if x not in added]
+                if k in lv:
+                    i = lv.index(k)
+                    if i > 0:
+                        gap_nbrs.append(("after", lv[i - 1]))
+                    if i + 1 < len(lv):
+                        gap_nbrs.append(("before", lv[i + 1]))
+                keys.remove(k)
         elif kind == "rename" and keys:
             cand = [k for k in keys if k not in check_cols]
             if cand:
@@ -271,7 +325,11 @@ def gen_ops(rnd, scn, light=False):
             fk = rnd.choice([k for k in keys if k not in fk_cols]); fk_cols.add(fk)
             ops.append(["add_fk", "fkn%d" % len(ops), [fk], "p", ["id"]]); con_names.append("fkn%d" % (len(ops) - 1)); con_kind[con_names[-1]] = "foreignkey"
         elif kind == "drop_con" and con_names:
-            n = rnd.choice(con_names); ops.append(["drop_con", n, con_kind[n]])
+            n = rnd.choice(con_names)
+            ops.append(["drop_con", n, (None if (con_kind[n] == "primary" and rnd.random() < 0.4) else con_kind[n])])
+            if con_kind[n] == "primary":
+                pkcols[:] = []
+                con_names[:] = [x for x in con_names if x != n] + [n]
             if rnd.random() < 0.9:
                 con_names.remove(n)
         elif kind == "create_index" and keys:
@@ -332,6 +390,8 @@ def conc(c):
         kk = "KUnique"
     elif k[0] == "check":
         kk = "(KCheck %d)" % k[1]
+    elif k[0] == "primary":
+        kk = "KPrimary"
     else:
         kk = "(KFk %s %s)" % (cf.string(k[1]), names(k[2]))
     return "(mkCon %s %s %s)" % (cf.string(c["name"]), kk, names(c["cols"]))
@@ -435,8 +495,12 @@ def run_case(scn):
     def reflect(conn, tname="t"):
         insp = sa.inspect(conn)
         cols = [[c["name"], type_tok(c["type"]), bool(c["nullable"]), strip_default(c["default"])] for c in insp.get_columns(tname)]
-        pk = list(insp.get_pk_constraint(tname)["constrained_columns"])
+        pkc = insp.get_pk_constraint(tname)
+        pk = list(pkc["constrained_columns"])
         cons = []
+        if pkc.get("name") and pk:
+            cons.append(dict(name=pkc["name"], kind=["primary"], cols=pk))      # a NAMED primary key is a named constraint
+            pk = []
         for u in insp.get_unique_constraints(tname):
             cons.append(dict(name=u["name"], kind=["unique"], cols=list(u["column_names"])))
         for c in insp.get_check_constraints(tname):
@@ -462,7 +526,7 @@ def run_case(scn):
             args = [sa.Column("id", sa.Integer, nullable=False)]
             for (n, t_, nl, df) in scn["cols"]:
                 args.append(sa.Column(n, sa_type(sa, t_), nullable=nl, server_default=df))
-            args.append(sa.PrimaryKeyConstraint(*pk))        # unnamed, in declared order
+            args.append(sa.PrimaryKeyConstraint(*pk, name=scn.get("pkname")))        # in declared order; unnamed or named
             for (n, cs) in scn["uniques"]:
                 args.append(sa.UniqueConstraint(*cs, name=n))
             for c in scn["checks"]:
@@ -541,7 +605,10 @@ def run_case(scn):
                         elif k == "add_fk":
                             b.create_foreign_key(o[1], o[3], list(o[2]), list(o[4]))
                         elif k == "drop_con":
-                            b.drop_constraint(o[1], type_=o[2])
+                            if o[2] is None:
+                                b.drop_constraint(o[1])
+                            else:
+                                b.drop_constraint(o[1], type_=o[2])
                         elif k == "create_index":
                             b.create_index(o[1], list(o[2]), unique=bool(o[3]))
                         elif k == "drop_index":
@@ -611,6 +678,44 @@ def classify(scn, out):
                 byname = True
     if readd:
         return FINDINGS["readd"]
+    # where an added column lands: replay which neighbours _setup_dependencies_for_add_column records for every add
+    try:
+        existing = ["id"] + [c[0] for c in scn["cols"]]
+        pairs, nbrs = [], {}
+        nbrdrop = False
+        for o in scn["ops"]:
+            if o[0] == "add":
+                before, after = o[5], o[6]
+                idx = {n: i for i, n in enumerate(existing)}
+                if after and not before:
+                    if after in idx:
+                        if idx[after] + 1 < len(existing):
+                            before = existing[idx[after] + 1]
+                    else:
+                        before = dict(pairs)[after]
+                if before and not after:
+                    if before in idx:
+                        if idx[before] - 1 >= 0:
+                            after = existing[idx[before] - 1]
+                    else:
+                        after = {b_: a_ for a_, b_ in pairs}[before]
+                if before:
+                    pairs.append((o[1], before))
+                if after:
+                    pairs.append((after, o[1]))
+                if not before and not after and existing:
+                    after = existing[-1]
+                    pairs.append((after, o[1]))
+                nbrs[o[1]] = {x for x in (before, after) if x}
+            elif o[0] == "drop":
+                if any(o[1] in v for v in nbrs.values()):
+                    nbrdrop = True
+                if o[1] in existing:
+                    existing.remove(o[1])
+        if nbrdrop:
+            return FINDINGS["nbrdrop"]
+    except KeyError:
+        pass
     if byname:
         return FINDINGS["byname"]
     return None
